@@ -15,8 +15,9 @@
  *               that never dereferences beyond what exists
  *   dec-small   3 decoders x every destination buffer state / capacity
  *   dec-long    lengths 1..1100 (+ 16-bit maxima) x capacity len-1,len,len+1
- *   dec-max     32-bit / 64-bit prefix values against a claimed capacity of
- *               len-1 (out-of-memory has to be reported without a write)
+ *   dec-max     32-bit / 63-bit prefix values (up to the kind's maximum) against
+ *               a real destination of 1 and 7 octets (out-of-memory has to be
+ *               reported without a write beyond it)
  *   stream      1..3 consecutive frames, every composition (fragmentation) of
  *               the stream by a chunk source, 3 decoders
  *   stream2     one frame with a two-octet varint prefix, every fragmentation
@@ -431,7 +432,9 @@ judge_obj(const char *ep, int k, uint64_t n, const unsigned char *pay,
         mc_fail(clause(ep, "accepts"), "length %llu (%s) refused rc=%d", (unsigned long long)n, kname[k], rc);
         return false;
     }
-    if (prefix->data != prefix_storage || prefix->used > VARINT_64BIT_MAX_OCTETS
+    /* where inside the object's storage the encoding sits is the implementation's business */
+    if (prefix->data < prefix_storage || prefix->data > prefix_storage + VARINT_64BIT_MAX_OCTETS
+        || prefix->used > (size_t)(prefix_storage + VARINT_64BIT_MAX_OCTETS - prefix->data)
         || prefix->offset > prefix->used) {
         mc_fail(clause(ep, "prefix"), "prefix view is not inside the object's prefix storage (used=%zu offset=%zu)",
                 prefix->used, prefix->offset);
@@ -587,9 +590,36 @@ run_chunks(int k, enum ep ep, int sk, const struct chunkspec *c)
         lpc->payload = (ByteChunks){ c->nch, c->active, arr };
         const int rc = flenp_chunks_use(klib[k], lpc);
         const bool acc = judge_obj(epname[ep], k, total, NULL, lpc->prefix_, &lpc->prefix, NULL, rc);
-        if (acc && (lpc->payload.chunks != c->nch || lpc->payload.active != c->active
-                    || lpc->payload.chunk != arr || memcmp(copy, arr, c->nch * sizeof *arr) != 0))
-            mc_fail(clause(epname[ep], "payload"), "the chunk list of the object no longer designates the same octets");
+        if (acc) {
+            /* The object has to designate exactly the octets it was given: the
+             * sequence of non-empty (address, length) pieces of its active
+             * chunks.  How the list represents them (which chunk is the first
+             * active one, data/offset split, size fields) is left open. */
+            const ByteChunks *pl = &lpc->payload;
+            bool same = pl->chunk >= arr && pl->chunk <= arr + c->nch
+                && pl->chunks <= (size_t)(arr + c->nch - pl->chunk) && pl->active <= pl->chunks;
+            size_t j = c->active; /* next expected piece in the original list */
+            size_t seen = 0;
+            for (size_t i = same ? pl->active : 0; same && i < pl->chunks; ++i) {
+                const ByteBuffer *q = pl->chunk + i;
+                if (q->offset > q->used) {
+                    same = false;
+                    break;
+                }
+                const size_t rest = q->used - q->offset;
+                if (rest == 0)
+                    continue;
+                while (j < c->nch && copy[j].used == copy[j].offset)
+                    ++j;
+                same = j < c->nch && q->data + q->offset == copy[j].data + copy[j].offset
+                    && rest == copy[j].used - copy[j].offset;
+                ++j;
+                seen += rest;
+            }
+            mc_log("chunk list after: chunks=%zu active=%zu designates %zu octets", pl->chunks, pl->active, seen);
+            if (!same || seen != total)
+                mc_fail(clause(epname[ep], "payload"), "the chunk list of the object no longer designates the same octets");
+        }
         free(lpc);
     } else {
         struct rec r;
@@ -1032,23 +1062,25 @@ dec_long(void)
         }
 }
 
-/* prefix says L (up to 2^64-1); claimed capacity is below L; only 16 real
- * octets exist behind the destination: out-of-memory has to be reported
- * without a write (ASan watches the block) */
+/* prefix says L (up to the kind's maximum); the destination is a real, exact
+ * block far smaller than L: out-of-memory has to be reported and ASan watches
+ * the block for a write beyond it.  (Prefix values beyond the kind's maximum
+ * are outside the statement and not generated.) */
 static void
 dec_max(void)
 {
-    static const uint64_t LS[] = { (1ull << 32) - 2, (1ull << 32) - 1, 1ull << 32, SSZ_MAX, SSZ_MAX + 1, UINT64_MAX };
+    static const uint64_t LS[] = { (1ull << 32) - 2, (1ull << 32) - 1, 1ull << 32, SSZ_MAX - 1, SSZ_MAX };
+    static const size_t CAPS[2] = { 1, 7 };
     for (int k = 0; k < NKINDS; ++k)
         for (size_t i = 0; i < sizeof LS / sizeof *LS; ++i) {
             const uint64_t L = LS[i];
-            if (L > ref_max(k) && k != K_VAR)
+            if (L > ref_max(k))
                 continue;
             for (int d = 0; d < 2; ++d)
                 for (int c = 0; c < 2; ++c) {
-                    const uint64_t cap = c ? 7 : L - 1;
-                    if (!mc_case("dec-max k=%s dec=%s len=%llu claimed-cap=%llu", kname[k], decname[d],
-                                 (unsigned long long)L, (unsigned long long)cap))
+                    const size_t cap = CAPS[c];
+                    if (!mc_case("dec-max k=%s dec=%s len=%llu cap=%zu", kname[k], decname[d],
+                                 (unsigned long long)L, cap))
                         continue;
                     unsigned char *stream = mc_exact(14);
                     const size_t pl = ref_prefix(k, L, stream);
@@ -1058,21 +1090,21 @@ dec_max(void)
                     src_init(&drv, stream, pl + 4, NULL);
                     Source src;
                     make_source(&src, &drv, SRC_CHUNK);
-                    unsigned char *dst = mc_exact(16);
-                    memset(dst, 0xee, 16);
+                    const size_t used = d == D_MEM ? 0 : 3;
+                    unsigned char *dst = mc_exact(used + cap);
+                    memset(dst, 0xee, used + cap);
                     ssize_t rc;
                     mc_trans(1);
                     if (d == D_MEM) {
                         rc = flenp_memory_from_source(klib[k], &src, dst, cap);
                     } else {
-                        const size_t used = (cap <= SIZE_MAX - 3u) ? 3 : 0;
-                        ByteBuffer b = { dst, used + cap, used, used ? 1 : 0 };
+                        ByteBuffer b = { dst, used + cap, used, 1 };
                         rc = flenp_buffer_from_source(klib[k], &src, &b);
                     }
                     mc_log("%s rc=%zd source consumed=%zu", decname[d], rc, drv.pos);
                     if (rc != -ENOMEM)
-                        mc_fail(clause(decname[d], "enomem"), "frame of %llu against room for %llu: rc=%zd, expected out-of-memory (%d)",
-                                (unsigned long long)L, (unsigned long long)cap, rc, -ENOMEM);
+                        mc_fail(clause(decname[d], "enomem"), "frame of %llu against room for %zu: rc=%zd, expected out-of-memory (%d)",
+                                (unsigned long long)L, cap, rc, -ENOMEM);
                     free(dst);
                     free(stream);
                     mc_end(true, "decmax-enomem");
@@ -1308,7 +1340,7 @@ main(int argc, char **argv)
     snprintf(bound, sizeof bound,
              "6 kinds; encoders: buffer states size<=%d x n<=rest, chunk lists <=%d chunks (rest 0..3, lead/slack 0..1, active<=%d), "
              "lengths 1..1100 + 65534..65536, maxima 2^31,2^32,SSIZE_MAX +-1 via fake buffers; decoders: buffer states size<=%d, "
-             "lengths 1..1100 x cap len-1..len+1, maxima vs cap len-1; streams of 1..3 frames with <=%d octets under all 2^(L-1) "
+             "lengths 1..1100 x cap len-1..len+1, maxima vs real capacities 1 and 7; streams of 1..3 frames with <=%d octets under all 2^(L-1) "
              "fragmentations, 130-octet stream under all <=2-cut fragmentations, octet source",
              T ? 8 : 6, T ? 4 : 3, T ? 2 : 1, T ? 8 : 6, T ? 16 : 12);
     mc_finish(true, bound);
